@@ -405,12 +405,15 @@ def e2e_job(job):
     (nx, ny, scale, rot, parity, center, depth, planetary) = job[:8]
     via_builder = len(job) > 8 and job[8]
     fmt = job[9] if len(job) > 9 else "npy"
+    values = job[10] if len(job) > 10 else "positive"
     part = Part()
     cfg = {"image": (nx, ny), "scale_deg": scale, "rotation": rot, "parity": parity, "center": center, "depth": depth, "coordsys": "planetary" if planetary else "astronomical"}
     if via_builder:
         cfg["entry"] = "Builder.toast_base"
     if fmt != "npy":
         cfg["format"] = fmt
+    if values != "positive":
+        cfg["values"] = values
     part.case(nontrivial=True)
 
     def bad(clause, detail):
@@ -418,6 +421,10 @@ def e2e_job(job):
 
     wcs = footprint_wcs(nx, ny, scale, rot, parity, center)
     data = (np.arange(nx * ny, dtype=np.float32).reshape(ny, nx) % 97) + 1
+    if values == "zero":
+        data = np.zeros_like(data)  # exactly 0.0 everywhere: a defined value like any other
+    elif values == "signed":
+        data = data - 49.0  # negative, zero and positive values
     ws = WcsSampler(data, wcs)
     with scratch("c07e") as d:
         pf = PyramidIO(os.path.join(d, "f"), default_format=fmt)
@@ -532,6 +539,11 @@ def run(tier, seed):
     for c in [(40, 30, 0.5, 30.0, 1, (0.0, 10.0), 3, False), (15, 15, 0.6, 0.0, 1, (40.0, -20.0), 3, True)]:
         jobs.append(("e2e", c + (False, "fits")))
         jobs.append(("e2e", c + (True, "fits")))
+    # images whose values are exactly zero / of both signs (zero is a defined value)
+    for c in [(40, 30, 0.5, 30.0, 1, (0.0, 10.0), 3, False), (15, 15, 0.6, 0.0, 1, (40.0, -20.0), 3, True)]:
+        for v in ("zero", "signed"):
+            jobs.append(("e2e", c + (False, "npy", v)))
+            jobs.append(("e2e", c + (True, "fits", v)))
     par.pmap(_job, jobs, rep)
     return rep.finish()
 
@@ -543,7 +555,7 @@ def replay(payload):
     elif "grid" in r:
         p = chunk_job((r["map"][0], r["map"][1], r["grid"][0], r["grid"][1], r["depth"]))
     elif "depth" in r:
-        p = e2e_job((r["image"][0], r["image"][1], r["scale_deg"], r["rotation"], r["parity"], tuple(r["center"]), r["depth"], r["coordsys"] == "planetary", r.get("entry") == "Builder.toast_base", r.get("format", "npy")))
+        p = e2e_job((r["image"][0], r["image"][1], r["scale_deg"], r["rotation"], r["parity"], tuple(r["center"]), r["depth"], r["coordsys"] == "planetary", r.get("entry") == "Builder.toast_base", r.get("format", "npy"), r.get("values", "positive")))
     else:
         p = footprint_job([(r["image"][0], r["image"][1], r["scale_deg"], r["rotation"], r["parity"], tuple(r["center"]))])
     for sig, (detail, _) in p.violations.items():
